@@ -40,7 +40,9 @@ def doc_text(evs):
                 dup_tail = f" see [^{other}]" if other and other != "-" else ""
             seen_defs.add(l)
         lines += {"ref": [f"R{i} [^{l}]"], "def": [f"[^{l}]: D{i}{dup_tail}"], "hr": ["***"], "head": [f"# {l}"],
-                  "qdef": [f"> [^{l}]: D{i}{dup_tail}"], "nref": ["```{note}", f"R{i} [^{l}]", "```"]}[k] + [""]
+                  "qdef": [f"> [^{l}]: D{i}{dup_tail}"], "nref": ["```{note}", f"R{i} [^{l}]", "```"],
+                  # a second paragraph of the definition written just before (indented continuation)
+                  "dref": [f"    R{i} [^{l}]"]}[k] + [""]
     return "\n".join(lines) + "\n", at_line
 
 
@@ -55,6 +57,14 @@ def observe(case):
         doc, warns = docutils_doctree(text, {"myst_footnote_sort": case["sort"], "myst_footnote_transition": case["trans"], "report_level": 2})
     except Exception as e:  # noqa: BLE001
         return {"error": f"{type(e).__name__}: {e}", "text": text}
+    return project_doc(doc, warns, evs, text, line_at, case["sort"])
+
+
+def project_doc(doc, warns, evs, text, line_at, sort):
+    """doctree (after the transforms) + warnings -> the observation record of FootnotesTrace"""
+    import re
+    from docutils import nodes
+    case = {"sort": sort}
     problems = []
     fns = list(doc.findall(nodes.footnote))
     at_of = {}
@@ -82,9 +92,14 @@ def observe(case):
     # references, by marker paragraph
     refview = []
     for i, (k, l) in enumerate(evs, 1):
-        if k not in ("ref", "nref"):
+        if k not in ("ref", "nref", "dref"):
             continue
         para = [p for p in doc.findall(nodes.paragraph) if re.match(rf"R{i}\b", p.astext()) and not isinstance(p.parent, nodes.system_message)]
+        if k == "dref":
+            if not para:
+                continue        # the body of a dropped duplicate definition is not in the document (the model has no reference either)
+            if not isinstance(para[0].parent, nodes.footnote):
+                problems.append(f"paragraph R{i} of a definition's body is outside the footnote")
         if len(para) != 1:
             problems.append(f"reference paragraph R{i} occurs {len(para)} times")
             refview.append([-1, -1])
@@ -154,6 +169,55 @@ def observe(case):
                     "dupw": sorted(dupw), "unrefw": sorted(unrefw), "final": final}}
 
 
+def sphinx_leg(ctx, recs, quick):
+    """Sphinx front end: the project sets footnote_sort / footnote_transition one way, every document sets its own values
+    in its front matter (half of them the opposite): the transforms obey the DOCUMENT's configuration."""
+    from ..sphinx_runner import run_docs
+    pick = [r for r in recs if any(k in ("def", "qdef") for k, _ in r["evs"]) and any(k in ("ref", "nref", "dref") for k, _ in r["evs"])]
+    step = max(1, len(pick) // (60 if quick else 400))
+    pick = pick[::step][:(60 if quick else 400)]
+    docs, meta = {}, {}
+    gsort, gtrans = True, True
+    for n, rec in enumerate(pick):
+        body, at_line = doc_text(rec["evs"])
+        fm = ["---", "myst:", f"  footnote_sort: {str(rec['sort']).lower()}", f"  footnote_transition: {str(rec['trans']).lower()}", "---", ""]
+        if (rec["sort"], rec["trans"]) == (gsort, gtrans) and n % 2:
+            fm = []                   # (nothing to override: no front matter at all)
+        text = "\n".join(fm) + ("\n" if fm else "") + "# T\n\n" + body
+        off = len(fm) + 2
+        docs[f"f{n}"] = text
+        meta[f"f{n}"] = (rec, {v + off: k for k, v in at_line.items()})
+    out = run_docs(ctx.wd / "sx_fn", docs, {"myst_footnote_sort": gsort, "myst_footnote_transition": gtrans}, resolve=True)
+    for name, (rec, line_at) in meta.items():
+        o = out.get(name)
+        ctx.count(("sphinx-fn", name))
+        ctx.traces_validated += 1
+        case = {"leg": "R-sphinx", "markdown": docs[name], "conf": {"myst_footnote_sort": gsort, "myst_footnote_transition": gtrans}}
+        if not o or not o["ok"] or o["doctree"] is None:
+            ctx.violation(f"Sphinx build failed: {o and o['error']}", case)
+            continue
+        doc = o["doctree"]
+        # the page title is not part of the arrangement
+        p = project_doc(doc, [w for w in o["warnings"]], rec["evs"], docs[name], line_at, rec["sort"])
+        if p["problems"]:
+            ctx.violation("Sphinx: " + "; ".join(p["problems"]), case)
+            continue
+        exp = _exp(rec)
+        obs = p["obs"]
+        obs["final"] = [x for x in obs["final"] if x != ["s", -1]]
+        # (Sphinx removes the system messages from the tree: a dropped duplicate leaves nothing behind)
+        exp["final"] = [(["q", x[1], "empty"] if x[0] == "q" and x[2] == "warn" else x) for x in exp["final"] if x[0] != "w"]
+        # (warnings are compared under docutils; a second resolution pass repeats some of Sphinx's)
+        bad = [k for k in ("defs_at", "num", "refview", "backrefs", "final") if exp[k] != obs[k]]
+        if bad:
+            k = bad[0]
+            ctx.violation(f"Sphinx, front matter footnote_sort={rec['sort']} footnote_transition={rec['trans']}: {k}: expected {exp[k]}, observed {obs[k]}",
+                          {**case, "expected": exp, "observed": obs})
+    ctx.leg("R-sphinx", documents=len(meta))
+    import shutil
+    shutil.rmtree(ctx.wd / "sx_fn", ignore_errors=True)
+
+
 def _exp(rec):
     return {"defs_at": [d["at"] for d in rec["defs"]], "num": list(rec["num"]), "refview": [list(x) for x in rec["refview"]],
             "backrefs": list(rec["backrefs"]), "dupw": sorted(rec["dupw"]), "unrefw": sorted(rec["unrefw"]),
@@ -189,12 +253,12 @@ def run(ctx):
     from .. import pipeline
     pipeline.check(ctx, "C11")
     recs = (r.records + [x for x in r2.records if any(e[0] in ("hr", "head") for e in x["evs"])]
-            + [x for x in r3.records if any(e[0] in ("qdef", "nref") for e in x["evs"])])
+            + [x for x in r3.records if any(e[0] in ("qdef", "nref", "dref") for e in x["evs"])])
     outs = pmap(observe, recs, chunksize=64)
     for rec, o in zip(recs, outs):
         key = (repr(rec["evs"]), rec["sort"], rec["trans"])
         ks = {k for k, _ in rec["evs"]}
-        ctx.count(key, nontrivial=bool(ks & {"ref", "nref"}) and bool(ks & {"def", "qdef"}))
+        ctx.count(key, nontrivial=bool(ks & {"ref", "nref", "dref"}) and bool(ks & {"def", "qdef"}))
         ctx.traces_validated += 1
         case = {"leg": "R", "markdown": o["text"], "footnote_sort": rec["sort"], "footnote_transition": rec["trans"]}
         if "error" in o:
@@ -212,6 +276,7 @@ def run(ctx):
     mid = recs[len(recs) // 2]
     ctx.sample({"arrangement": mid["evs"], "sort": mid["sort"], "transition": mid["trans"], "expected": _exp(mid)})
     ctx.leg("R", behaviours=len(recs))
+    sphinx_leg(ctx, recs, quick)
 
     # ---- V ----------------------------------------------------------------------------------
     rnd = random.Random(ctx.seed + 11)
@@ -224,6 +289,10 @@ def run(ctx):
         for _ in range(rnd.choice([0, 0, 1, 2])):
             evs.insert(rnd.randint(0, len(evs)), ["hr", "-"])
         evs = [e for n, e in enumerate(evs) if not (e[0] == "hr" and n and evs[n - 1][0] == "hr")]
+        # references inside the body of a definition (a second paragraph of it)
+        for n in range(len(evs) - 1, -1, -1):
+            if evs[n][0] == "def" and rnd.random() < 0.3:
+                evs.insert(n + 1, ["dref", rnd.choice(pool)])
         cases.append({"id": t, "evs": evs, "sort": rnd.random() < 0.6, "trans": rnd.random() < 0.5})
     vouts = pmap(observe, cases, chunksize=16)
     traces, keep = [], {}
